@@ -310,8 +310,9 @@ impl<'a> DwarfUnwinder<'a> {
         )?;
 
         let mut bt = vec![FrameSpan::new(self.debugee, ecx.location())?];
-        let mut visited_ips = HashSet::new();
-        visited_ips.insert(frame_0_location.pc);
+        // a frame is identified by its return address and CFA: recursion repeats the address with
+        // a different CFA, a corrupted (cyclic) unwind repeats both
+        let mut visited_frames = HashSet::new();
         let Some(mut ucx) = mb_ucx else {
             return Ok(bt);
         };
@@ -326,7 +327,7 @@ impl<'a> DwarfUnwinder<'a> {
                 break;
             }
 
-            if !visited_ips.insert(return_addr) {
+            if !visited_frames.insert((return_addr, ucx.cfa)) {
                 break;
             }
 
